@@ -506,7 +506,13 @@ class PKey:
         :raises: `.SSHException` -- if the key file is invalid.
         """
         with open(filename, "r") as f:
-            data = self._read_private_key(tag, f, password)
+            try:
+                data = self._read_private_key(tag, f, password)
+            except UnicodeDecodeError:
+                # (raised by the text-mode read) not a key file at all
+                raise SSHException(
+                    "not a valid {} private key file".format(tag)
+                )
         return data
 
     def _read_private_key(self, tag, f, password=None):
